@@ -274,6 +274,7 @@ class Received:
         self.timeouts_raised = 0
         self.short_reads = 0
         self.item = None        # index of the script item being read when reading ended
+        self.done = 0           # packets consumed successfully (script items + extra reads)
 
 
 def receive(direction, script, stream, max_chunk=None, cuts=(), timeouts=(), tclass=Transport,
@@ -294,10 +295,12 @@ def receive(direction, script, stream, max_chunk=None, cuts=(), timeouts=(), tcl
             else:
                 ptype, body = link.read()
                 r.got.append(bytes([ptype]) + body)
+            r.done += 1
         for _ in range(extra_reads):
             i = len(script)
             ptype, body = link.read()
             r.got.append(bytes([ptype]) + body)
+            r.done += 1
         r.item = None
     except NeedMoreData:
         r.waits = True
